@@ -41,6 +41,12 @@ def construct(prog: Program, cls_fq: str, args, kwargs):
                 # not stored as given (casadi: float(SX) is nan, float(MX) raises)
                 raise Raised("TypeError", ev[-1].node, None, ev[-1].detail)
             raise
+    ev = [e for e in it.events if e.kind == "symbolic-truth"]
+    if ev:
+        # `x or default`, `if x:` on a parameter: a legitimate zero is swallowed and a symbolic
+        # value has no truth value (casadi raises)
+        raise Raised("TypeError", ev[-1].node, None,
+                     "the constructor takes the python truth value of a parameter: " + ev[-1].detail)
     return o
 
 
